@@ -13,6 +13,7 @@ import (
 	"crypto/x509"
 	"crypto/x509/pkix"
 	"errors"
+	"hash"
 	"math/big"
 	"os"
 	"strings"
@@ -24,6 +25,7 @@ import (
 )
 
 //vsym:stub crypto/sha256.Sum256 = c15Sum256
+//vsym:stub crypto/sha256.New = c15NewHash
 //vsym:stub crypto/x509.ParseRevocationList = c15ParseCRL
 //vsym:stub time.Now = c15Now
 
@@ -53,6 +55,20 @@ func c15Sum256(data []byte) [32]byte {
 	c15Hashes = append(c15Hashes, c15HashEntry{s, out})
 	return out
 }
+
+// c15Hash: the streaming form of the same uninterpreted function
+type c15Hash struct{ buf []byte }
+
+func (h *c15Hash) Write(p []byte) (int, error) { h.buf = append(h.buf, p...); return len(p), nil }
+func (h *c15Hash) Sum(b []byte) []byte {
+	d := c15Sum256(h.buf)
+	return append(b, d[:]...)
+}
+func (h *c15Hash) Reset()         { h.buf = nil }
+func (h *c15Hash) Size() int      { return 32 }
+func (h *c15Hash) BlockSize() int { return 64 }
+
+func c15NewHash() hash.Hash { return &c15Hash{} }
 
 // ---- CRL parsing oracle ----------------------------------------------------------------------------
 
